@@ -98,6 +98,18 @@ def rule_pruning_preserves_paths(ctx, rid):
                     verdict = (True, "removes only nodes without predecessors (cannot lie on a path between kept nodes)")
             if verdict is None:
                 verdict = classify_bridged_removal(ctx, m, f, c, a0)
+        if verdict is None and c.func.attr == "remove_nodes_from":
+            # bulk removal that is neither the complement of an ancestor closure nor a set of predecessor-free nodes
+            srcfree = False
+            if isinstance(a0, ast.Name):
+                for _k, e, _p in [b for b in f.bindings.get(a0.id, []) if b[0] == "assign"]:
+                    if isinstance(e, ast.ListComp) and any(isinstance(x, ast.Call) and any(is_pred_free_test(m, g) for g in m.callee_funcs(f, x))
+                                                           for gen in e.generators for cond in gen.ifs for x in ast.walk(cond)):
+                        srcfree = True
+            verdict = (True, "removes only nodes without predecessors") if srcfree else (
+                False, "several nodes are removed at once although they may have predecessors and successors: bridges computed beforehand "
+                       "cannot account for removed nodes that are adjacent to each other, and nodes removed without bridging drop the "
+                       "dependency (and staleness) paths routed through them")
         if verdict is None:
             raise AnalysisError(f"{f.qualname}: node removal `{norm(st)}` is not a recognised pruning idiom")
         ctx.ob(rid, f"{f.short}/removal", verdict[0], loc(f, c), verdict[1], norm(st), verdict[2] if len(verdict) > 2 else "")
